@@ -5,6 +5,14 @@ def m(name, rule, key, old, new, file=SB):
     return dict(name=name, kind='mutant', rule=rule, key=key, edits=[dict(file=file, old=old, new=new)])
 
 CASES = [
+    dict(name='revert-fix-set_input-clears-in-place', kind='mutant', rule='R5', key='set_input[the queue itself]',
+         edits=[dict(file='pedal/sandbox/sandbox.py', old="            # A new list rather than `.clear()`: the argument may be the current queue itself\n            # (`get_input()` hands that out), and the queue may have been replaced by a function\n            self.inputs = []\n",
+                     new="            self.inputs.clear()\n")]),
+    dict(name='clear_output-rewrites-execution-records', kind='mutant', rule='R5', key='clear_output:keeps-execution-records',
+         edits=[dict(file='pedal/sandbox/sandbox.py', old="        # Update outputs\n        self.raw_output = \"\"\n", new="        # Update outputs\n        self.raw_output = \"\"\n        for context in self._context:\n            context.output = \"\"\n")]),
+    dict(name='twin-set_input-copies-then-clears', kind='twin',
+         edits=[dict(file='pedal/sandbox/sandbox.py', old="            # A new list rather than `.clear()`: the argument may be the current queue itself\n            # (`get_input()` hands that out), and the queue may have been replaced by a function\n            self.inputs = []\n",
+                     new="            if isinstance(inputs, (list, tuple)):\n                inputs = list(inputs)\n            self.inputs = list()\n")]),
     m('raw-output-assigned-not-appended', 'R3', 'append_output[', "        self.raw_output += raw_output\n", "        self.raw_output = raw_output\n"),
     m('context-gets-cumulative-output', 'R3', 'append_output[', "        context.output = raw_output\n", "        context.output = self.raw_output\n"),
     m('revert-fix-guard', 'R3', "append_output[prev='a\\n',new='']", "        if raw_output:\n            lines = raw_output.rstrip()", "        if self.raw_output:\n            lines = raw_output.rstrip()"),
@@ -23,7 +31,7 @@ CASES = [
     m('tracker-not-installed', 'R4', 'installs-tracker', "        self.mock_function('input', self._track_inputs(context.inputs))\n", ""),
     m('queue-input-clears', 'R5', 'queue_input', "    sandbox.set_input(inputs, clear=False)", "    sandbox.set_input(inputs, clear=True)", file=CM),
     m('numbers-not-stringified', 'R5', 'set_input[5', "            self.inputs.append(str(inputs))", "            self.inputs.append(inputs)"),
-    m('clear-ignored', 'R5', 'set_input[', "        if clear:\n            self.inputs.clear()", "        if clear and not self.inputs:\n            self.inputs.clear()"),
+    m('clear-ignored', 'R5', 'set_input[', "        if clear:\n            # A new list rather than", "        if clear and not self.inputs:\n            # A new list rather than"),
     m('list-inputs-reversed', 'R5', 'set_input[', "            self.inputs.extend([str(value) for value in inputs])", "            self.inputs.extend([str(value) for value in reversed(inputs)])"),
     m('clear_input-noop', 'R5', 'clear_input', "        self.set_input(None)\n        return self", "        return self"),
     dict(name='twin-append-output-rewritten', kind='twin',
